@@ -139,31 +139,40 @@ func (QSubScenario) Execute(sim *sched.Sim, ci interface{}, prop string, race bo
 	// ordinary resource over the whole index
 	m.svc.Handle("items", res.Collection, store.QueryHandler{QueryStore: qs, Transformer: trans})
 	// ordinary resources parameterised by key prefix
+	affected := func(p res.Pattern, qc store.QueryChange) []string {
+		seen := map[string]bool{}
+		var out []string
+		for _, v := range []interface{}{qc.Before(), qc.After()} {
+			if v == nil {
+				continue
+			}
+			k := v.(idxRec).K
+			for i := 1; i <= len(k); i++ {
+				pre := k[:i]
+				if !seen[pre] {
+					seen[pre] = true
+					out = append(out, string(p.ReplaceTag("p", pre)))
+				}
+			}
+		}
+		if c.Bogus {
+			out = append(out, "test.unserved."+qc.ID())
+		}
+		return out
+	}
 	m.svc.Handle("itemsby.$p", res.Collection, store.QueryHandler{QueryStore: qs, Transformer: trans,
 		RequestHandler: func(rname string, pp map[string]string) (url.Values, error) {
 			return url.Values{"p": {pp["p"]}}, nil
 		},
-		AffectedResources: func(p res.Pattern, qc store.QueryChange) []string {
-			seen := map[string]bool{}
-			var out []string
-			for _, v := range []interface{}{qc.Before(), qc.After()} {
-				if v == nil {
-					continue
-				}
-				k := v.(idxRec).K
-				for i := 1; i <= len(k); i++ {
-					pre := k[:i]
-					if !seen[pre] {
-						seen[pre] = true
-						out = append(out, string(p.ReplaceTag("p", pre)))
-					}
-				}
-			}
-			if c.Bogus {
-				out = append(out, "test.unserved."+qc.ID())
-			}
-			return out
-		}})
+		AffectedResources: affected})
+	// query resources parameterised by key prefix: the query extends the
+	// prefix (the normalized query does not contain the path parameter)
+	m.svc.Handle("under.$p", res.Collection, store.QueryHandler{QueryStore: qs, Transformer: trans,
+		QueryRequestHandler: func(rname string, pp map[string]string, q url.Values) (url.Values, string, error) {
+			x := q.Get("x")
+			return url.Values{"p": {pp["p"] + x}}, "x=" + x, nil
+		},
+		AffectedResources: affected})
 	// query resource
 	m.svc.Handle("search", res.Collection, store.QueryHandler{QueryStore: qs, Transformer: trans,
 		QueryRequestHandler: func(rname string, pp map[string]string, q url.Values) (url.Values, string, error) {
@@ -180,6 +189,10 @@ func (QSubScenario) Execute(sim *sched.Sim, ci interface{}, prop string, race bo
 		{rid: "test.search?p=a", subject: "get.test.search", payload: `{"query":"p=a"}`},
 		{rid: "test.search?p=", subject: "get.test.search", payload: `{"query":"p="}`},
 		{rid: "test.search?p=b", subject: "get.test.search", payload: `{"query":"p=b"}`},
+		{rid: "test.under.a?x=", subject: "get.test.under.a", payload: `{"query":"x="}`},
+		{rid: "test.under.b?x=", subject: "get.test.under.b", payload: `{"query":"x="}`},
+		{rid: "test.under.a?x=b", subject: "get.test.under.a", payload: `{"query":"x=b"}`},
+		{rid: "test.under.b?x=a", subject: "get.test.under.b", payload: `{"query":"x=a"}`},
 	}
 	parseColl := func(data []byte) (string, bool) {
 		ce, err := model.ParseGet(data)
